@@ -589,3 +589,21 @@ def foreign_column_reads(builder, frames, assign_call):
 
         rec(body)
     return out
+
+
+def vector_value(F, t):
+    """A per-group vector handed back by an aggregate function -> its frame-algebra value: a table column (`frame[col]`, `frame.col`,
+    possibly rounded / re-indexed) or a Series group sum `frame.groupby(keys)[col].sum()`. Raises AnalysisError otherwise."""
+    while t[0] == "call" and t[1][0] == "attr" and t[1][2] in ("round", "reset_index", "copy", "astype"):
+        t = t[1][1]
+    if t[0] == "attr" and t[2] == "values":
+        t = t[1]
+    if t[0] == "sub" and t[2][0] in ("const", "fstr"):
+        return F.col(t[1], t[2])
+    if t[0] == "attr" and t[2] not in ("values", "T", "index", "columns", "iloc", "loc"):
+        return F.col(t[1], ("const", t[2]))
+    if t[0] == "call" and t[1][0] == "attr" and t[1][2] == "sum" and t[1][1][0] == "sub":
+        g_, c_ = t[1][1][1], t[1][1][2]
+        if _is_groupby(g_) and c_[0] in ("const", "fstr"):
+            return ("gsum", g_[1][1], F.col(g_[1][1], c_), g_[2][0])
+    raise AnalysisError(f"returned vector {ir.show(t, maxdepth=4)} is neither a table column nor a group sum")
